@@ -143,6 +143,7 @@ func (n *vfNet) vfWait() {
 func (n *vfNet) record(ev *vfWireEv) *vfWireEv {
 	ev.Seq = n.seq.Add(1)
 	ev.T = n.now()
+	vfProgress.Add(1)
 	n.mu.Lock()
 	n.log = append(n.log, ev)
 	n.mu.Unlock()
